@@ -816,6 +816,80 @@ func init() {
 		},
 	}
 
+	// ---- C17/histories ----
+	// a write that fails at byte k (or another chain written or read first), then the round trip of
+	// a legal chain: the property is claimed for every chain regardless of what the process did before
+	histories := &mc.Harness{
+		Name: "C17/histories",
+		Mode: "operation histories: {failed Write at every byte position, Write of another chain, ReadCertChain of another chain} then the round trip",
+		Run: func(c *mc.Ctx) {
+			lens := []int{1, 24, 256}
+			nfirst := len(c17Pool)
+			if c.Quick() {
+				lens = []int{1, 24}
+				nfirst = 2
+			}
+			n := 1 + c.Free(2, "chainlen")
+			first := c.Free(nfirst, "cert0")
+			var entries []refcert.Entry
+			var chain certurl.CertChain
+			var names []string
+			for i := 0; i < n; i++ {
+				ct := c17Pool[(first+i)%len(c17Pool)]
+				names = append(names, ct.name)
+				e := refcert.Entry{Cert: ct.cert.Raw}
+				if i == 0 {
+					e.OCSP = c17Own(c17Blob(c.Seed, 0, lens[c.Free(len(lens), "ocsplen")]))
+				}
+				if c.Free(2, "sct?") == 1 {
+					e.SCT = c17Own(c17Blob(c.Seed, 2*i+1, lens[c.Free(len(lens), "sctlen")]))
+				}
+				entries = append(entries, e)
+				chain = append(chain, &certurl.AugmentedCertificate{Cert: ct.cert, OCSPResponse: e.OCSP, SCTList: e.SCT})
+			}
+			want, rerr := refcert.Serialize(entries)
+			if rerr != nil {
+				panic("c17 histories: reference refuses a legal chain: " + rerr.Error())
+			}
+			// the earlier operation works on a different chain (other certificate, other blobs)
+			oct := c17Pool[(first+3)%len(c17Pool)]
+			other := certurl.CertChain{&certurl.AugmentedCertificate{Cert: oct.cert, OCSPResponse: []byte("other-ocsp-response"), SCTList: []byte("other-sct-list")}}
+			otherBytes, oerr := refcert.Serialize([]refcert.Entry{{Cert: oct.cert.Raw, OCSP: []byte("other-ocsp-response"), SCT: []byte("other-sct-list")}})
+			if oerr != nil {
+				panic("c17 histories: " + oerr.Error())
+			}
+			var hist string
+			switch c.Free(4, "earlier operation") {
+			case 0:
+				k := c.Free(len(want)+1, "k")
+				short := c.Free(2, "refuse/short") == 1
+				fw := mc.NewFaultWriter(k, short, false)
+				err, pan := c17Write(chain, fw.Writer(false))
+				hist = fmt.Sprintf("after Write of the same chain to a destination failing at byte %d (short=%v) -> err=%v", k, short, err)
+				if pan != nil || (k < len(want) && err == nil) {
+					c.Outcome("failed write reported success")
+					c.Fail("C17/histories:"+c17DescribeEntries(names, entries)+":"+hist, "Write to a failing destination panicked or reported success", hist, "error", fmt.Sprintf("err=%v panic=%v", err, pan))
+					return
+				}
+			case 1:
+				k := c.Free(len(otherBytes)+1, "k")
+				fw := mc.NewFaultWriter(k, false, false)
+				err, _ := c17Write(other, fw.Writer(false))
+				hist = fmt.Sprintf("after Write of another chain to a destination failing at byte %d -> err=%v", k, err)
+			case 2:
+				var b bytes.Buffer
+				err, _ := c17Write(other, &b)
+				hist = fmt.Sprintf("after a successful Write of another chain (%d bytes) -> err=%v", b.Len(), err)
+			default:
+				cut := c.Free(len(otherBytes)+1, "cut")
+				_, err, _ := c17Read(bytes.NewReader(otherBytes[:cut]))
+				hist = fmt.Sprintf("after ReadCertChain of another chain truncated to %d of %d bytes -> err=%v", cut, len(otherBytes), err)
+			}
+			c.Outcome("history: " + strings.SplitN(hist, " ->", 2)[0][:20])
+			c17CheckChain(c, "C17/histories", c17DescribeEntries(names, entries)+" "+hist, entries, chain, func() int { return 0 })
+		},
+	}
+
 	// ---- C17/certs ----
 	certs := &mc.Harness{
 		Name: "C17/certs",
@@ -1058,14 +1132,14 @@ func init() {
 	register(&mc.Property{
 		ID:    "C17",
 		Level: "model_checking",
-		Rule:  "choice-tree enumeration. C17/roundtrip: chain length 1..3 x first certificate (5; later positions rotate through the pool so all are distinct) x ocsp and sct independently absent/present at every position (all 4^n patterns, legal and illegal) x length of every present blob from {256 (default),0,1,23,24,255,65535,65536} x reader {bytes.Reader (default), short reads (1 byte for requests <=16 bytes, at most half of larger requests), data together with EOF} (only drawn for legal chains); lengths and reader are deviations: quick explores every vector with <=2 deviations, thorough bound 7 = the full product. C17/certs: every ordered selection with repetition of 0..3 of 5 fixture certificates x all presence patterns, literal or NewCertChain. C17/hostile: 11 kinds of reference-built inputs (all 9^n absent/empty/non-empty presence patterns, missing cert x5, zero certificates x3, unknown keys 5x6, wrong magic x7, shapes/truncations x7, all key orders, duplicate keys x5, trailing bytes x3, head forms x9, value types x7) at every position of chains of 1..3. C17/sct: every list of 0..3 elements with sizes from {0,1,2,65531,65532,65533,65534,65535,65536}. A case is non-trivial when a verdict was demanded of the implementation: a legal chain whose output was compared byte-for-byte with the reference and read back (distinct by chain description and reader), an illegal chain or must-refuse input whose refusal was checked, a must-accept input, every SCT list; hostile inputs that are only recorded are not counted.",
+		Rule:  "choice-tree enumeration. C17/roundtrip: chain length 1..3 x first certificate (5; later positions rotate through the pool so all are distinct) x ocsp and sct independently absent/present at every position (all 4^n patterns, legal and illegal) x length of every present blob from {256 (default),0,1,23,24,255,65535,65536} x reader {bytes.Reader (default), short reads (1 byte for requests <=16 bytes, at most half of larger requests), data together with EOF} (only drawn for legal chains); lengths and reader are deviations: quick explores every vector with <=2 deviations, thorough bound 7 = the full product. C17/histories: legal chains of 1..2 certificates (first certificate 2 quick / 5 thorough, ocsp and optional sct lengths from {1,24} quick / {1,24,256} thorough) written and read back after an earlier operation in the same process: a Write of the same chain to a destination failing at every byte position k in [0,len] (refusing or short write), a Write of another chain failing at every k, a successful Write of another chain, or a ReadCertChain of another chain truncated at every length. C17/certs: every ordered selection with repetition of 0..3 of 5 fixture certificates x all presence patterns, literal or NewCertChain. C17/hostile: 11 kinds of reference-built inputs (all 9^n absent/empty/non-empty presence patterns, missing cert x5, zero certificates x3, unknown keys 5x6, wrong magic x7, shapes/truncations x7, all key orders, duplicate keys x5, trailing bytes x3, head forms x9, value types x7) at every position of chains of 1..3. C17/sct: every list of 0..3 elements with sizes from {0,1,2,65531,65532,65533,65534,65535,65536}. A case is non-trivial when a verdict was demanded of the implementation: a legal chain whose output was compared byte-for-byte with the reference and read back (distinct by chain description and reader), an illegal chain or must-refuse input whose refusal was checked, a must-accept input, every SCT list; hostile inputs that are only recorded are not counted.",
 		Assumptions: []string{
 			"refcert/refcbor (independent cert-chain+cbor serializer and strict reader, RFC 6962 vector codec) are correct",
 			"blob content is irrelevant to structure (one seeded pattern per run); blob lengths between the enumerated boundary values behave like their neighbours in the same CBOR head class",
 			"the five fixture certificates (P-256 and P-384 leaves, one CA, 355..470 bytes of DER) stand for all certificates: the code treats DER as an opaque byte string on write and hands it to crypto/x509 on read",
 			"byte-for-byte equality is bytes.Equal; whether an absent sct is read back as nil or empty is recorded, not judged",
 		},
-		Harnesses: []*mc.Harness{roundtrip, certs, hostile, sct},
+		Harnesses: []*mc.Harness{roundtrip, histories, certs, hostile, sct},
 		Guard: func(s map[string]*mc.Stats) error {
 			need := func(h, class string, min int64) error {
 				if s[h] == nil {
@@ -1079,6 +1153,7 @@ func init() {
 			for _, e := range []error{
 				need("C17/roundtrip", "ref:legal", 1000),
 				need("C17/roundtrip", "ref:illegal presence", 1000),
+				need("C17/histories", "ref:legal", 1000),
 				need("C17/certs", "ref:legal", 100),
 				need("C17/certs", "ref:illegal presence", 100),
 				need("C17/certs", "ref:illegal empty-chain", 1),
